@@ -246,7 +246,7 @@ func mTotal() int {
 }
 
 func mConcurrent(n int) {
-	vThreads()
+	vSchedulePolicy(vRange("schedulePolicy", 0, 2)) // thread mode, under each of the three scheduling policies
 	mm.under, mm.raw, mm.byName = map[*tls.Conn]net.Conn{}, map[*tls.Conn]*mConn{}, map[string]*mConn{}
 	mm.incs, mm.seen = nil, map[string]string{}
 	ctx, cancel := context.WithCancel(context.Background())
